@@ -199,3 +199,5 @@ K_GJK0 = ("mjc_ccd: coincident geom centres give the initial point x0 = c1 - c2 
           "and distance 0 is reported (EPA never runs: no penetration depth, no contact)")
 K_EPAW = ("mjc_ccd/EPA: witness points are barycentric extrapolations on one of several coplanar polytope triangles and can lie "
           "outside both geoms (face-face penetration): fromto / contact pos are not on the surfaces although dist is right")
+K_EPADEG = ("mjc_ccd/EPA: exactly symmetric configurations produce a degenerate initial simplex/polytope and a penetration depth that is "
+            "too small (a 1e-7 perturbation of the pose gives the right depth)")
